@@ -131,6 +131,8 @@ struct Th {
     yielded: bool,
     /// the thread is descheduled inside a busy-wait hint (it waits for another thread's step)
     at_spin: bool,
+    /// value of State::writes when it last entered a busy-wait hint
+    spin_writes: u64,
     timed_out: bool,
     std_id: Option<ThreadId>,
     bracket: u32,
@@ -240,6 +242,8 @@ pub struct State {
     panics: Vec<String>,
     t2_used: bool,
     tso_used: bool,
+    /// writes (stores, read-modify-writes, plain and cell writes) executed so far
+    writes: u64,
     dead_objs: Vec<(&'static str, usize)>,
     obj_size: Vec<(usize, usize)>,
     /// armed breakpoints: the next thread that emits the label blocks on the flag
@@ -283,6 +287,7 @@ impl Engine {
             token: false,
             yielded: false,
             at_spin: false,
+            spin_writes: 0,
             timed_out: false,
             std_id: Some(std::thread::current().id()),
             bracket: 0,
@@ -319,6 +324,7 @@ impl Engine {
                 panics: Vec::new(),
                 t2_used: false,
                 tso_used: false,
+                writes: 0,
                 dead_objs: Vec::new(),
                 obj_size: Vec::new(),
                 breakpoints: Vec::new(),
@@ -431,6 +437,7 @@ impl Engine {
                 token: false,
                 yielded: false,
                 at_spin: false,
+                spin_writes: 0,
                 timed_out: false,
                 std_id: None,
                 bracket: 0,
@@ -825,7 +832,8 @@ impl Engine {
             }
             // quiescence modulo busy-waiters: when every runnable thread sits in a busy-wait hint, nothing can happen
             // until somebody else acts - a quiescing harness thread is that somebody
-            if en.iter().all(|&t| st.th[t].at_spin) {
+            // (a busy-waiter counts as stuck only if nobody has written anything since it last looked)
+            if en.iter().all(|&t| st.th[t].at_spin && st.th[t].spin_writes == st.writes) {
                 if let Some(q) = (0..n).find(|&t| !st.th[t].finished && matches!(st.th[t].blocked, Some(Cond::Quiesce))) {
                     st.th[q].blocked = None;
                     return (st, q);
@@ -1047,6 +1055,9 @@ impl Hooks for Engine {
         }
         let mut st = self.lock();
         st.th[me].at_spin = false;
+        if !matches!(op, Op::Load | Op::CellRead | Op::PlainRead) {
+            st.writes += 1;
+        }
         self.record(&mut st, me, op, addr, loc);
         let mut flush_after = false;
         if st.cfg.tso && !st.th[me].sbuf.is_empty() {
@@ -1179,6 +1190,7 @@ impl Hooks for Engine {
             token: false,
             yielded: false,
             at_spin: false,
+            spin_writes: 0,
             timed_out: false,
             std_id: None,
             bracket: 0,
@@ -1361,6 +1373,7 @@ impl Hooks for Engine {
         let mut st = Engine::lock(self);
         st.th[me].yielded = true;
         st.th[me].at_spin = true;
+        st.th[me].spin_writes = st.writes;
         self.resched(st, me);
     }
 
